@@ -24,12 +24,12 @@ META = {
 }
 REQUIRED_CLAUSES = ["mass.spd", "mass.sum_JGJ", "fd_inverts_id", "decomposition", "tip_term", "coriolis_power", "gravity_gradient",
                     "arm.inverseDynamics", "arm.inverseDynamicsC", "arm.inverseDynamicsEMR", "arm.massMatrix", "arm.coriolisGravity",
-                    "arm.forwardDynamics", "arm.forwardDynamicsE", "energy_conservation"]
+                    "arm.forwardDynamics", "arm.forwardDynamicsE", "energy_conservation", "arm.integrate"]
 
 
 def plan(tier, seed):
     if tier == "quick":
-        return [{"n": 40, "ntraj": 1, "timeout_s": 1800} for _ in range(16)]
+        return [{"n": 40, "ntraj": 3, "timeout_s": 1800} for _ in range(16)]
     return [{"n": 1250, "ntraj": 12, "timeout_s": 14400} for _ in range(16)]
 
 
@@ -184,7 +184,7 @@ def check_mr(chain, st, ctx, mr, case):
             viol("gravity_gradient", "gravity_gradient", rel_err=e)
 
 
-def energy_traj(chain, st, ctx, mr, case):
+def energy_traj(chain, st, ctx, mr, case, arm=None):
     from scipy.integrate import solve_ivp
     n = chain["n"]
     S = np.ascontiguousarray(np.array(chain["S"]))
@@ -215,6 +215,23 @@ def energy_traj(chain, st, ctx, mr, case):
     ctx.err("energy_conservation", abs(E1 - E0) / sc)
     if abs(E1 - E0) > 1e-6 * sc:
         ctx.violation("energy_conservation", "energy_drift", {"E0": E0, "E1": E1, "steps": int(sol.t.size)}, case)
+    if arm is not None and not case.get("reconfigure"):
+        # the arm's own integrator (scipy RK45 at its default 1e-3 tolerance) against the accurate reference trajectory
+        ctx.clause("arm.integrate")
+        try:
+            t, y = arm.integrateForwardDynamics(q0.copy(), qd0.copy(), np.zeros(n), 0.1, g.copy())
+            y = np.asarray(y, dtype=float)
+            ref = solve_ivp(rhs, [0, 0.1], np.concatenate([q0, qd0]), rtol=1e-10, atol=1e-12, method="DOP853").y[:, -1]
+            e = float(np.max(np.abs(y[-1] - ref))) / max(1.0, float(np.max(np.abs(ref))))
+            ctx.err("arm.integrate", e)
+            if y.shape[1] != 2 * n or not (e <= 5e-3):
+                ctx.violation("arm.integrate", "arm.integrate/end_state", {"rel_err": e, "shape": y.shape}, case)
+            Ea = E(y[-1, :n], y[-1, n:])
+            if abs(Ea - E0) > 5e-3 * sc:
+                ctx.violation("arm.integrate", "arm.integrate/energy_drift", {"E0": E0, "E1": Ea}, case)
+        except Exception:
+            import traceback
+            ctx.violation("arm.integrate", "arm.integrate/raises", {"exc": traceback.format_exc()[-400:]}, case)
 
 
 def configure_arm(arm, chain, pattern, tm, ctx):
@@ -316,6 +333,7 @@ def check_arm(chain, st, ctx, bm, mr, case, kind):
         ctx.cls("reconfigured")
         configure_arm(arm, rc["chain"], rc["setter_pattern"], tm, ctx)
         evaluate_arm(arm, rc["chain"], rc["state"], ctx, mr, case, kind, k + 1)
+    return arm
 
 
 def rechain(rng, chain):
@@ -354,9 +372,9 @@ def test6r_chain():
 def run_case(case, ctx, bm, mr):
     chain, st = case["chain"], case["state"]
     check_mr(chain, st, ctx, mr, case)
-    check_arm(chain, st, ctx, bm, mr, case, case.get("kind", "random"))
+    arm = check_arm(chain, st, ctx, bm, mr, case, case.get("kind", "random"))
     if case.get("traj"):
-        energy_traj(chain, st, ctx, mr, case)
+        energy_traj(chain, st, ctx, mr, case, arm)
 
 
 def run_shard(spec, ctx):
